@@ -118,6 +118,29 @@ def check_parity(rep, prog):
                   any(y.k == 'CXXMemberCallExpr' and y.callee and y.callee['name'] == 'parity' for y in (d.c[0] if d.k == 'BinaryOperator' else d.c[1]).walk())]
         if not stores:
             probs.append('the parity of the visited node is never stored')
+        # the relabelling runs on every call: parities are state kept from the previous phase, so an exit that skips the traversal
+        # leaves the labels of the previous signed set in place
+        cfg = fn.cfg
+        loops = [l for l in fn.body.c if l.k in ('WhileStmt', 'ForStmt', 'DoStmt')] if fn.body is not None else []
+        loop_blocks = set()
+        for l in loops:
+            p0 = cfg.pos_of(l.cond) if l.cond is not None else None
+            if p0:
+                loop_blocks.add(p0[0])
+        for r in ex.returns_of(fn):
+            pr = cfg.pos_of(r)
+            if pr is None or not loop_blocks:
+                continue
+            reach = cfg.reachable_blocks(cfg.entry, avoid=loop_blocks)
+            if pr[0] in reach:
+                g = ex.path_condition(cfg, r, lambda leaf: None)
+                onodes = ex.opaque_nodes(fn, g)
+                nullroot = onodes and all(ex.null_test(o) is not None and any(
+                    y.k == 'MemberExpr' and y.decl and 'root' in (y.decl.get('name') or '') for y in o.walk()) for o in onodes)
+                if nullroot:
+                    continue
+                probs.append('`return` at line %d leaves update_parities before the traversal (under `%s`): the parities computed for the previous '
+                             'signed set stay in place for the whole tree' % (r.line, onodes[0].text(60) if onodes else 'an unconditional path'))
         if probs:
             rep.violation('R01e', fn.body, fn, what, '; '.join(probs), key='R01e|%s|xor' % fn.g)
         else:
